@@ -67,7 +67,14 @@ def canon_subst(root, is_match, value_canon):
 
 
 def one_case(rng, res, intern, stream, root, label):
-  fn = rng.choice(l2.CALLABLES)
+  present = [b.__fn_or_cls__ for b in c02.reachable(root) if isinstance(b, config_lib.Buildable)
+             and not isinstance(b, config_lib.TaggedValueCls)]
+  if present and rng.random() < 0.85:
+    fn = rng.choice(present)
+    if isinstance(fn, type) and rng.random() < 0.4 and fn.__mro__[1] in CLASSES:
+      fn = fn.__mro__[1]  # a superclass: exercises subclass matching
+  else:
+    fn = rng.choice(l2.CALLABLES)
   match_sub = rng.random() < 0.6
   btn = rng.choice(list(BTYPES))
   btype, bt_g = BTYPES[btn]
